@@ -266,6 +266,24 @@ def gen_chain_scene(rng, sid, kind=None, orient=None, opt=None):
     return sc
 
 
+def gen_chain_reroute_scene(rng, sid, **kw):
+    """full rerouting (registerHyperedgeForRerouting(JunctionRef*)) of a hyperedge that has SEVERAL junctions, one of them a pass-through
+    junction with exactly two connectors (the chains of gen_chain_scene without the client-side removal): every old junction - whatever its
+    degree - must be reported deleted and be gone, the new connectors / junctions must form one tree over the same terminals (seeded C12-7:
+    only junctions with more than two connectors were recorded, the pass-through junction stayed behind without connectors).  The hyperedge is
+    registered at a random junction of the chain (the pass-through one included); later transactions: shape moves / apply recommended."""
+    sc = gen_chain_scene(rng, sid, **kw)
+    moves = []
+    for mv in sc.moves:
+        mv = [m for m in mv if m[0] != -3]
+        if mv:
+            moves.append(mv)
+    sc.moves = moves[:2]
+    sc.reroute = ('J', rng.below(len(sc.juncs)))
+    sc.family = 'chainreroute_' + sc.family[4:]
+    return sc
+
+
 def twin(sc):
     """same scene without improvement: its first transaction shows the tree *before* improvement (classifier input)"""
     t = copy.deepcopy(sc)
@@ -858,6 +876,9 @@ def run(tier):
                 i += 1
     for i in range(n // 3):
         scenes.append(gen_chain_scene(rng.fork(), 'rmj%d' % i))
+    # full rerouting of multi-junction hyperedges with a pass-through junction (registration at any junction of the chain)
+    for i in range(n // 4):
+        scenes.append(gen_chain_reroute_scene(rng.fork(), 'crr%d' % i))
     all_bad, stats, fam, samples, crashed = evaluate(scenes)
     report(res, all_bad)
     unknown = [b for b in all_bad if b[1] is None or not res.known_fingerprint(b[1])]
